@@ -22,6 +22,7 @@ def loopLabel (j : Json) : R Loop.Label := do
     | "tick", [d] => pure (.tick (← nat d))
     | "sockAccept", [c] => pure (.sockAccept (← nat c))
     | "register", [] => pure .register
+    | "hregister", [c] => pure (.hregister (← nat c))
     | "addActive", [] => pure .addActive
     | "spawn", [] => pure .spawn
     | "acceptTimeout", [] => pure .acceptTimeout
@@ -47,7 +48,8 @@ def shapeOf (a : Json) : R Shape :=
   | some (.str "repaired") => pure Shape.repaired
   | some j => do
     match (← arr j) with
-    | [x, y] => pure ⟨← bool x, ← bool y⟩
+    | [x, y] => pure ⟨← bool x, ← bool y, false⟩
+    | [x, y, z] => pure ⟨← bool x, ← bool y, ← bool z⟩
     | _ => throw "bad shape"
 
 def cfgOf (a : Json) : R Cfg := do
@@ -148,7 +150,8 @@ def handle (fn : String) (a : Json) : R Json := do
   | "gen" =>
     pure (obj [("acceptTimeoutMillis", ofNat Gen.C33.acceptTimeoutMillis), ("graceFloorSecs", ofNat Gen.C33.graceFloorSecs),
       ("joinTimeoutSecs", ofNat Gen.C33.joinTimeoutSecs), ("clearsFlagOnAccept", ofBool Gen.C33.clearsFlagOnAccept),
-      ("callbackChecksCurrent", ofBool Gen.C33.callbackChecksCurrent), ("sharedUnderLock", ofBool Gen.C33.sharedUnderLock),
+      ("callbackChecksCurrent", ofBool Gen.C33.callbackChecksCurrent),
+      ("registersInHandler", ofBool Gen.C33.registersInHandler), ("sharedUnderLock", ofBool Gen.C33.sharedUnderLock),
       ("loopShape", ofBool Gen.C33.loopShape), ("handlerShape", ofBool Gen.C33.handlerShape),
       ("timerShape", ofBool Gen.C33.timerShape), ("gcLimit", ofNat Gen.C33.gcLimit),
       ("launchShape", ofBool Gen.C33.launchShape), ("gcShape", ofBool Gen.C33.gcShape),
